@@ -596,6 +596,7 @@ func runC06(c *Ctx) {
 	wr, rd := registryAgreement(c)
 	writerSnifferAgreement(c, s, wr, rd)
 	renderEncodesRegisteredVersion(c)
+	scratchStateByValue(c)
 
 	// D4 no panic in the sniffer
 	const RG = "absent-part-guard"
